@@ -79,6 +79,7 @@ class Acc(object):
         self.outcomes = set()        # digests of distinct observed outcomes
         self.cells = {}              # coverage cell -> number of non-trivial cases
         self.viol = {}               # key -> [count, [stored cases]]
+        self.viol_cases = {}         # key -> set of digests of ALL violating cases (known-finding matching)
         self.samples = []
         self.counters = {}           # free-form named counters
         self.extra = {}              # free-form values (max-merged if numeric, else last)
@@ -118,7 +119,9 @@ class Acc(object):
         rank: smaller = simpler (the simplest stored case becomes the replay artefact)."""
         ent = self.viol.setdefault(key, [0, []])
         ent[0] += 1
-        rec = {'case': jsonable(case), 'detail': detail,
+        jcase = jsonable(case)
+        self.viol_cases.setdefault(key, set()).add('%016x' % h64(jcase))
+        rec = {'case': jcase, 'detail': detail,
                'rank': rank if rank is not None else ent[0]}
         ent[1].append(rec)
         ent[1].sort(key=lambda r: r['rank'])
@@ -138,6 +141,8 @@ class Acc(object):
                 self.maxi(k, v)
             else:
                 self.extra[k] = v
+        for k, cs in other.viol_cases.items():
+            self.viol_cases.setdefault(k, set()).update(cs)
         for k, (n, recs) in other.viol.items():
             ent = self.viol.setdefault(k, [0, []])
             ent[0] += n
@@ -264,11 +269,25 @@ def finish(ctx, acc, level, rule, exhaustive, assumptions, required_cells=(), co
         raise HarnessError('vacuous coverage cells (no non-trivial case): %r' % (missing[:20],))
 
     new_viol, absorbed = [], {}
+    record = os.environ.get('VERIF_RECORD_KNOWN')
+    recorded_now = {}
     for key, (n, recs) in sorted(acc.viol.items()):
         if key in known_keys:
             absorbed[key] = n
+            digests = acc.viol_cases.get(key, set())
+            recorded_now[key] = sorted(digests)
+            listed = known_keys[key].get('cases')
+            if listed is not None and not record:
+                extra = digests - set(listed)
+                if extra:
+                    # the finding is identified by the recorded failing cases: anything else is new
+                    unl = [r for r in recs if ('%016x' % h64(r['case'])) in extra] or recs
+                    new_viol.append((key + ':case-not-in-recorded-finding', len(extra), unl))
         else:
             new_viol.append((key, n, recs))
+    if record:
+        with open(record, 'a') as fh:
+            fh.write(json.dumps({'property': prop, 'tier': ctx.tier, 'cases': recorded_now}) + '\n')
 
     rdir = os.path.join(os.environ.get('VERIF_REPLAY_DIR') or os.path.join(VERIF, 'replays'), prop)
     lines = []
